@@ -152,6 +152,23 @@ def calls_with_child(fn, envs, body_nodes, accepted, variant, field):
                 if has_root(p, variant, field):
                     hits.append((n, adaptors_between(p, variant, field), p))
                     break
+    if not hits:
+        # iterative descent: the arm only NAMES the child (`=> Some(*root_id)`), and the `while let Some(c) = <this match> { node = c }`
+        # around it moves on to it -- the recursion of a tail-recursive walk written as a loop
+        for w in A.walk(fn.body):
+            if w["k"] != "While" or w["cond"].get("k") != "Let":
+                continue
+            inside = {id(y) for y in A.walk(w["cond"]["expr"])}
+            if not any(r is not None and id(r) in inside for r in body_nodes):
+                continue
+            for n in A.walk(w["body"]):
+                if n["k"] == "Assign":
+                    lhs = A.resolve(n["left"], envs.get(id(n)) or A.fn_env(fn))
+                    if lhs[0] == "param":
+                        p = A.resolve(n["right"], envs.get(id(n)) or A.fn_env(fn))
+                        if has_root(p, variant, field):
+                            hits.append((n, adaptors_between(p, variant, field), p))
+                            break
     return hits
 
 
